@@ -18,9 +18,13 @@
      (`print_scan_roundtrip_nocompress`: scalars and arrays of scalars, any options); range
      compression itself (`nxA`, `a ... c`, `a b ... c`) is proved for lists of scalars in which
      constant runs of any scalar type and int32 arithmetic runs stand among uncompressed values in
-     any order (`print_scan_roundtrip_runs_partial`); runs inside arrays, runs of arrays and
-     arithmetic runs of 'h' / 'c' / booleans are covered by the correspondence check and the
-     round-trip oracle only.
+     any order (`print_scan_roundtrip_runs_partial`), and for lists that mix such values and runs
+     with ARRAYS of scalars that may themselves contain compressed runs, values and runs directly
+     behind an array included, and runs of equal arrays `nx[…]`
+     (`print_scan_roundtrip_arrays_partial`); arithmetic runs of 'h' and 'c' values are proved for
+     lists that are exactly one run (`range_roundtrip_huge`, `range_roundtrip_char`); nested
+     arrays, 'h' / 'c' runs in context and boolean runs are covered by the correspondence check
+     and the round-trip oracle only.
   The full statement is kept as `print_scan_roundtrip_statement`.
 -/
 import RtoscModel.Proofs.PrettyMsg
@@ -36,9 +40,13 @@ import RtoscModel.Proofs.PrettyTokTimeFrac
 import RtoscModel.Proofs.PrettyTokArray
 import RtoscModel.Proofs.PrettyRunConst
 import RtoscModel.Proofs.PrettyRunInt
+import RtoscModel.Proofs.PrettyRunHuge
+import RtoscModel.Proofs.PrettyRunChar
 import RtoscModel.Proofs.PrettyRunsExtItems
 import RtoscModel.Proofs.PrettyRunsExtConv
 import RtoscModel.Proofs.PrettyRunsExtMsg
+import RtoscModel.Proofs.PrettyRunsArrMsg
+import RtoscModel.Proofs.PrettyRunsArrNext
 import RtoscModel.ArgVal.Expand
 import RtoscModel.Generated.PrettyConst
 namespace Rtosc.Pretty
@@ -725,6 +733,176 @@ theorem range_roundtrip_int (opt : POpt) (hc : opt.compress = true) (a d : Int) 
 
 
 
+/-! ### Tier 3: arithmetic runs of 'h' and 'c' values, for lists that are one run -/
+
+theorem rangeVals_gen (mk : Int → Cell) (d a : Int) : ∀ (m i : Nat),
+    (∀ k : Nat, i ≤ k → k < i + m → ArgVal.rangeVal (mk d) (mk a) k = .ok (mk (a + (k : Int) * d))) →
+    ArgVal.rangeVals (mk d) (mk a) i m =
+      some ((List.range m).map (fun (j : Nat) => Val.sc (mk (a + ((i + j : Nat) : Int) * d)))) := by
+  intro m
+  induction m with
+  | zero => intro i _; simp [ArgVal.rangeVals]
+  | succ k ih =>
+    intro i h
+    have h0 := h i (Nat.le_refl _) (by omega)
+    have hrest := ih (i + 1) (fun k' hk1 hk2 => h k' (by omega) (by omega))
+    simp only [ArgVal.rangeVals, h0, hrest]
+    rw [List.range_succ_eq_map]
+    simp only [List.map_cons, List.map_map, Nat.add_zero]
+    congr 2
+    apply List.map_congr_left
+    intro j _
+    simp only [Function.comp]
+    have : i + 1 + j = i + Nat.succ j := by omega
+    rw [this]
+
+/-- from the cell-level round trip of a list that is one arithmetic run of cells `mk v` to the
+    statement-level one: the range block expands to the run -/
+theorem range_roundtrip_of_cells (opt : POpt) (mk : Int → Cell) (hsc : ∀ v, (mk v).isScalar = true) (a d : Int) (n : Nat)
+    (hn : 5 ≤ n)
+    (hval : ∀ k : Nat, k < n → ArgVal.rangeVal (mk d) (mk a) k = .ok (mk (a + (k : Int) * d)))
+    (hval2 : ∀ k : Nat, k + 1 < n → ArgVal.rangeVal (mk d) (mk (a + d)) k = .ok (mk (a + d + (k : Int) * d)))
+    (hrt : ∃ (st : PSt) (ret : Nat) (cells : List Cell),
+      printArgVals opt ((List.range n).map (fun (k : Nat) => mk (a + (k : Int) * d))) ⟨[], 0⟩ = .ok (st, ret) ∧
+      ret = st.out.length ∧ countPrintedArgVals st.out = .ok (cells.length : Int) ∧
+      scanArgVals st.out cells.length = .ok (st.out.length, cells) ∧
+      cells = (if d = 1 ∨ d = -1 then [Cell.rep n 1, mk d, mk a]
+               else [mk a, Cell.rep ((n : Int) - 1) 1, mk d, mk (a + d)])) :
+    RoundTrips opt (((List.range n).map (fun (k : Nat) => mk (a + (k : Int) * d))).map Item.val) := by
+  obtain ⟨st, ret, cells, h1, h2, h3, h4, hcells⟩ := hrt
+  have hexp : expandList (((List.range n).map (fun (k : Nat) => mk (a + (k : Int) * d))).map Item.val) =
+      some ((List.range n).map (fun (k : Nat) => Val.sc (mk (a + (k : Int) * d)))) := by
+    rw [expandList_vals _ (by intro c hc; simp only [List.mem_map] at hc; obtain ⟨k, _, rfl⟩ := hc; exact hsc _)]
+    simp [List.map_map, Function.comp]
+  by_cases hu : d = 1 ∨ d = -1
+  · rw [if_pos hu] at hcells
+    refine ⟨st, ret, [Item.range n (mk d) (mk a)], _, ?_, h2, ?_, ?_, ?_, hexp⟩
+    · rw [flatList_vals]; exact h1
+    · simpa [flatList, Item.flat, hcells] using h3
+    · have : flatList [Item.range n (mk d) (mk a)] = cells := by simp [flatList, Item.flat, hcells]
+      rw [this]; exact h4
+    · simp only [expandList, Item.expand, hsc, and_self, show 1 ≤ n from by omega, ↓reduceIte]
+      rw [rangeVals_gen mk d a n 0 (by intro k _ hk; exact hval k (by omega))]
+      simp
+  · rw [if_neg hu] at hcells
+    have hn1 : ((n - 1 : Nat) : Int) = (n : Int) - 1 := by omega
+    refine ⟨st, ret, [Item.val (mk a), Item.range (n - 1) (mk d) (mk (a + d))], _, ?_, h2, ?_, ?_, ?_, hexp⟩
+    · rw [flatList_vals]; exact h1
+    · simpa [flatList, Item.flat, hcells, hn1] using h3
+    · have : flatList [Item.val (mk a), Item.range (n - 1) (mk d) (mk (a + d))] = cells := by
+        simp [flatList, Item.flat, hcells, hn1]
+      rw [this]; exact h4
+    · simp only [expandList, Item.expand, hsc, and_self, show 1 ≤ n - 1 from by omega, ↓reduceIte]
+      rw [rangeVals_gen mk d (a + d) (n - 1) 0 (by intro k _ hk; exact hval2 k (by omega))]
+      simp only [Nat.zero_add, List.cons_append, List.nil_append, Option.some.injEq]
+      obtain ⟨m, rfl⟩ : ∃ m, n = m + 1 := ⟨n - 1, by omega⟩
+      simp only [Nat.add_sub_cancel]
+      rw [List.range_succ_eq_map]
+      simp only [List.map_cons, List.map_map, Int.natCast_zero, Int.zero_mul, Int.add_zero, List.cons.injEq, true_and]
+      rw [List.append_nil]
+      apply List.map_congr_left
+      intro j _
+      simp only [Function.comp]
+      congr 2
+      rw [show ((Nat.succ j : Nat) : Int) = (j : Int) + 1 from by simp, Int.add_mul]
+      omega
+
+theorem wrapI64_id (v : Int) (h1 : -9223372036854775808 ≤ v) (h2 : v ≤ 9223372036854775807) : ArgVal.wrapI64 v = v := by
+  unfold ArgVal.wrapI64; omega
+
+theorem rangeVal_huge (d a : Int) (i : Nat)
+    (hm : -9223372036854775808 ≤ (i : Int) * d ∧ (i : Int) * d ≤ 9223372036854775807)
+    (hs : -9223372036854775808 ≤ a + (i : Int) * d ∧ a + (i : Int) * d ≤ 9223372036854775807) :
+    ArgVal.rangeVal (Cell.huge d) (Cell.huge a) i = .ok (Cell.huge (a + (i : Int) * d)) := by
+  simp [ArgVal.rangeVal, ArgVal.fromInt, ArgVal.mult, ArgVal.add, ArgVal.Cell.type, wrapI64_id _ hm.1 hm.2,
+    wrapI64_id _ hs.1 hs.2]
+
+theorem rangeVal_char (d a : Int) (i : Nat)
+    (hm : -2147483648 ≤ (i : Int) * d ∧ (i : Int) * d ≤ 2147483647)
+    (hs : -2147483648 ≤ a + (i : Int) * d ∧ a + (i : Int) * d ≤ 2147483647) :
+    ArgVal.rangeVal (Cell.int .c d) (Cell.int .c a) i = .ok (Cell.int .c (a + (i : Int) * d)) := by
+  simp [ArgVal.rangeVal, ArgVal.fromInt, ArgVal.mult, ArgVal.add, ArgVal.Cell.type, ArgVal.IntTy.char,
+    wrapI32_id _ hm.1 hm.2, wrapI32_id _ hs.1 hs.2]
+
+/-- the arithmetic run `a, a+d, …` of `n` int64 values as an argument list -/
+def hugeItems (a d : Int) (n : Nat) : List Item := (hugeRun a d n).map Item.val
+
+/-- **range_roundtrip_huge** (tier 3, arithmetic runs of 'h' values): a list that is one arithmetic
+    run of `n ≥ 5` int64 values (step `d ≠ 0`; the run and the step behind it stay inside int64, it is
+    not wider than 2^63-1, and its length fits the `int` that `rtosc_arg_val_to_int` returns for the
+    count — needed for EVERY step here, see `huge_delta_count_wraps` in Proofs/PrettyRunHuge.lean),
+    compression on, is printed as `ah ... zh` / `ah bh ... zh` and scanned as a range whose
+    expansion is the original list. -/
+theorem range_roundtrip_huge (opt : POpt) (hc : opt.compress = true) (a d : Int) (n : Nat) (hn : 5 ≤ n) (hd : d ≠ 0)
+    (hrange : ∀ k : Nat, k ≤ n → -9223372036854775808 ≤ a + (k : Int) * d ∧ a + (k : Int) * d ≤ 9223372036854775807)
+    (hwidth : ((n : Int) - 1) * d.natAbs ≤ 9223372036854775807)
+    (hn32 : (n : Int) ≤ 2147483647) :
+    RoundTrips opt (hugeItems a d n) := by
+  have hmul : ∀ k : Nat, k + 1 ≤ n → -9223372036854775807 ≤ (k : Int) * d ∧ (k : Int) * d ≤ 9223372036854775807 := by
+    intro k hk
+    have h0 := hrange 0 (by omega)
+    have hk' := hrange k (by omega)
+    have hl := hrange (n - 1) (by omega)
+    -- |k d| ≤ (n-1)|d|
+    have hkn : (k : Int) ≤ (n : Int) - 1 := by omega
+    have habs : ((k : Int) * d).natAbs ≤ (((n : Int) - 1) * d.natAbs).toNat := by
+      rw [Int.natAbs_mul]
+      have : ((k : Int).natAbs : Int) * (d.natAbs : Int) ≤ ((n : Int) - 1) * (d.natAbs : Int) := by
+        apply Int.mul_le_mul_of_nonneg_right _ (by omega)
+        omega
+      omega
+    omega
+  unfold hugeItems hugeRun
+  refine range_roundtrip_of_cells opt Cell.huge (fun _ => rfl) a d n hn ?_ ?_
+    (huge_run_roundtrip opt hc a d n hn hd hrange hwidth hn32)
+  · intro k hk
+    have hm := hmul k (by omega)
+    exact rangeVal_huge d a k ⟨by omega, hm.2⟩ (hrange k (by omega))
+  · intro k hk
+    have hm := hmul k (by omega)
+    have hs := hrange (k + 1) (by omega)
+    have e : a + d + (k : Int) * d = a + ((k + 1 : Nat) : Int) * d := by rw [succ_mul']; omega
+    exact rangeVal_huge d (a + d) k ⟨by omega, hm.2⟩ (by rw [e]; exact hs)
+
+/-- the arithmetic run `a, a+d, …` of `n` characters as an argument list -/
+def charItems (a d : Int) (n : Nat) : List Item := (charRun a d n).map Item.val
+
+/-- **range_roundtrip_char** (tier 3, arithmetic runs of 'c' values): a list that is one arithmetic
+    run of `n ≥ 5` characters of the domain (step `d ≠ 0`), compression on, is printed as
+    `'a' ... 'e'` / `'a' 'c' ... 'i'` and scanned as a range whose expansion is the original list. -/
+theorem range_roundtrip_char (opt : POpt) (hc : opt.compress = true) (a d : Int) (n : Nat) (hn : 5 ≤ n) (hd : d ≠ 0)
+    (hchars : ∀ k : Nat, k < n → CharOK (a + (k : Int) * d)) :
+    RoundTrips opt (charItems a d n) := by
+  have hb : ∀ k : Nat, k < n → 0 ≤ a + (k : Int) * d ∧ a + (k : Int) * d ≤ 126 := by
+    intro k hk
+    have := hchars k hk
+    unfold CharOK at this
+    omega
+  have hmul : ∀ k : Nat, k < n → -126 ≤ (k : Int) * d ∧ (k : Int) * d ≤ 126 := by
+    intro k hk
+    have h0 := hb 0 (by omega)
+    have := hb k hk
+    simp only [Int.natCast_zero, Int.zero_mul, Int.add_zero] at h0
+    omega
+  unfold charItems charRun
+  refine range_roundtrip_of_cells opt (Cell.int .c) (fun _ => rfl) a d n hn ?_ ?_
+    (char_run_roundtrip opt hc a d n hn hd hchars)
+  · intro k hk
+    have hm := hmul k hk
+    have hs := hb k hk
+    exact rangeVal_char d a k ⟨by omega, by omega⟩ ⟨by omega, by omega⟩
+  · intro k hk
+    have hm := hmul k (by omega)
+    have hs := hb (k + 1) (by omega)
+    have e : a + d + (k : Int) * d = a + ((k + 1 : Nat) : Int) * d := by rw [succ_mul']; omega
+    exact rangeVal_char d (a + d) k ⟨by omega, by omega⟩ (by rw [e]; omega)
+
+example : RoundTrips defaultOpt (hugeItems (-5000000000000000000) 2000000000000000000 5) :=
+  range_roundtrip_huge defaultOpt rfl _ _ _ (by decide) (by decide) (by intro k hk; omega) (by decide) (by decide)
+
+example : RoundTrips defaultOpt (charItems 122 (-2) 5) :=
+  range_roundtrip_char defaultOpt rfl _ _ _ (by decide) (by decide) (by intro k hk; unfold CharOK; omega)
+
 /-! ### Tier 3: compressed runs in context -/
 
 /-- **the printer cuts the argument list into the segments `segs`** (`RSeg.tok c`: the value `c`
@@ -824,6 +1002,284 @@ theorem message_roundtrip_runs_partial (opt : POpt) (hopt : OptOK opt) (hc : opt
   · rw [flatList_valsX]; exact h1
   · rw [flatList_itemsAll hs none]; exact h3
   · rw [flatList_itemsAll hs none]; exact h4
+
+/-! ### Tier 3: compressed runs AND arrays -/
+
+/-- **the printer cuts the argument list into the pieces `xs`**: an `ASeg.seg s` is a segment as in
+    `PrinterSegments` (a value printed as it is, a constant run `nxT`, an int32 arithmetic run), an
+    `ASeg.arr body` is an array whose body the array loop of the printer cuts into the segments
+    `body` (values and compressed runs INSIDE the array), an `ASeg.arun n body` is a run of `n ≥ 5`
+    equal such arrays, printed as `nx[…]` (for it `rtosc_convert_to_range` returns the whole run of
+    arrays and the block `n x first array`).  The hypotheses are again exactly the side
+    conditions of `rtosc_print_arg_vals` / `rtosc_print_arg_val`: `rtosc_convert_to_range`, called
+    at the start of each piece on the whole rest of the list, returns nothing for a value and for
+    an array header (no run of five identical arrays: see `PrinterPieces.arr_of_next`), the whole
+    constant run, resp. the whole arithmetic run; inside an array it is called with the number of
+    cells left in the array, which is `PrinterSegments opt body` for the body on its own
+    (`convertToRange_append`: the cells behind the array are not looked at); the values of an
+    array have one type (`ArrTypesOK`: the checker's `arraytypes_match`; 'T'/'F' count as one),
+    and the array's tag is the type of its last value (`lastTyS body 32`, see `arrTag_eq`). -/
+inductive PrinterPieces (opt : POpt) : List ASeg → Prop
+  | nil : PrinterPieces opt []
+  | tok (c : Cell) (xs : List ASeg) : ScalarInDomain opt c → ¬ MidnightTime c →
+      convertToRange opt (c :: cellsAllA xs) ((cellsAllA xs).length + 1) = .ok none →
+      PrinterPieces opt xs → PrinterPieces opt (.seg (.tok c) :: xs)
+  | crun (n : Nat) (c : Cell) (xs : List ASeg) : ScalarInDomain opt c → ¬ MidnightTime c → 5 ≤ n → n ≤ 2147483647 →
+      convertToRange opt (List.replicate n c ++ cellsAllA xs) (n + (cellsAllA xs).length) =
+        .ok (some (n, [Cell.rep n 0, c])) →
+      PrinterPieces opt xs → PrinterPieces opt (.seg (.crun n c) :: xs)
+  | irun (a d : Int) (n : Nat) (xs : List ASeg) : 5 ≤ n → d ≠ 0 →
+      (∀ k : Nat, k ≤ n → -2147483648 ≤ a + (k : Int) * d ∧ a + (k : Int) * d ≤ 2147483647) →
+      ((n : Int) - 1) * d.natAbs ≤ 2147483647 → ((d = 1 ∨ d = -1) → (n : Int) ≤ 2147483647) →
+      convertToRange opt (arithRun a d n ++ cellsAllA xs) (n + (cellsAllA xs).length) =
+        .ok (some (n, [Cell.rep n 1, Cell.int .i d, Cell.int .i a])) →
+      PrinterPieces opt xs → PrinterPieces opt (.seg (.irun a d n) :: xs)
+  | arr (body : List RSeg) (xs : List ASeg) : PrinterSegments opt body → ArrTypesOK body →
+      convertToRange opt (arrHdr body :: (cellsAll body ++ cellsAllA xs))
+        ((cellsAll body).length + 1 + (cellsAllA xs).length) = .ok none →
+      PrinterPieces opt xs → PrinterPieces opt (.arr body :: xs)
+  | arun (n : Nat) (body : List RSeg) (xs : List ASeg) : PrinterSegments opt body → ArrTypesOK body → 5 ≤ n → n ≤ 2147483647 →
+      convertToRange opt ((List.replicate n (arrHdr body :: cellsAll body)).flatten ++ cellsAllA xs)
+        (n * ((cellsAll body).length + 1) + (cellsAllA xs).length) =
+        .ok (some (n * ((cellsAll body).length + 1), Cell.rep n 0 :: arrHdr body :: cellsAll body)) →
+      PrinterPieces opt xs → PrinterPieces opt (.arun n body :: xs)
+
+theorem PrinterPieces.asegmented {opt : POpt} (hopt : OptOK opt) {xs : List ASeg} (h : PrinterPieces opt xs) :
+    ASegmented opt xs := by
+  induction h with
+  | nil => exact .nil
+  | tok c xs hd hm hcv _ ih =>
+    have hs := (simpleVal_of_domain opt hopt c hd hm).token
+    exact .tok c xs hs.1 hs.2 hcv ih
+  | crun n c xs hd hm h5 h2 hcv _ ih =>
+    have hs := (simpleVal_of_domain opt hopt c hd hm).token
+    exact .crun n c xs hs.1 hs.2 h5 h2 hcv ih
+  | irun a d n xs h5 hd hr hw h32 hcv _ ih =>
+    exact .irun a d n xs (runHyp_mk a d n h5 hd hr hw h32) hcv ih
+  | arr body xs hb hty hcv _ ih =>
+    exact .arr body xs (hb.segmented hopt) hty hcv ih
+  | arun n body xs hb hty h5 h2 hcv _ ih =>
+    exact .arun n body xs (hb.segmented hopt) hty h5 h2 hcv ih
+
+/-- the first cell of a list of pieces that starts with a segment is a scalar -/
+theorem PrinterPieces.head_scalar {opt : POpt} {s : RSeg} {r : List ASeg} (h : PrinterPieces opt (.seg s :: r)) :
+    ∃ c more, cellsAllA (.seg s :: r) = c :: more ∧ c.isScalar = true := by
+  cases h with
+  | tok c xs hd _ _ _ => exact ⟨c, cellsAllA r, by simp [cellsAllA, ASeg.cells, RSeg.cells], isScalar_of_domain opt c hd⟩
+  | crun n c xs hd _ h5 _ _ _ =>
+    obtain ⟨m, rfl⟩ : ∃ m, n = m + 1 := ⟨n - 1, by omega⟩
+    exact ⟨c, List.replicate m c ++ cellsAllA r, by simp [cellsAllA, ASeg.cells, RSeg.cells, List.replicate_succ],
+      isScalar_of_domain opt c hd⟩
+  | irun a d n xs h5 _ _ _ _ _ _ =>
+    refine ⟨Cell.int .i a, (arithRun a d n).drop 1 ++ cellsAllA r, ?_, rfl⟩
+    simp only [cellsAllA, ASeg.cells, RSeg.cells]
+    rw [arithRun_cons a d n (by omega)]
+    simp
+
+/-- an array is a piece when it is the last argument or is followed by a value or a run (not by
+    another array): then `rtosc_convert_to_range` finds fewer than five arrays in a row -/
+theorem PrinterPieces.arr_of_next {opt : POpt} (body : List RSeg) (xs : List ASeg) (hb : PrinterSegments opt body)
+    (hty : ArrTypesOK body) (hnext : xs = [] ∨ ∃ s r, xs = .seg s :: r) (hrest : PrinterPieces opt xs) :
+    PrinterPieces opt (.arr body :: xs) := by
+  refine .arr body xs hb hty ?_ hrest
+  unfold arrHdr
+  apply convertToRange_arr_next
+  rcases hnext with rfl | ⟨s, r, rfl⟩
+  · right; simp [cellsAllA]
+  · left; exact hrest.head_scalar
+
+/-- a constant run is a piece when the cell behind it (if any; it may be an array header) is not
+    identical to the run's value (`range_args_identical`) -/
+theorem PrinterPieces.crun_of_next {opt : POpt} (hopt : OptOK opt) (hc : opt.compress = true) (n : Nat) (c : Cell)
+    (xs : List ASeg) (hd : ScalarInDomain opt c) (hm : ¬ MidnightTime c) (h5 : 5 ≤ n) (h2 : n ≤ 2147483647)
+    (hnext : cellsAllA xs = [] ∨ ∀ more, rangeArgsIdentical (c :: more) (cellsAllA xs) = .ok false)
+    (hrest : PrinterPieces opt xs) : PrinterPieces opt (.seg (.crun n c) :: xs) :=
+  .crun n c xs hd hm h5 h2
+    (convertToRange_crun_of_nextW opt hc c (isScalar_of_domain opt c hd) (selfIdentical_of_domain opt c hd) n h5
+      (cellsAllA xs) (wfCells_cellsAllA (hrest.asegmented hopt)) hnext) hrest
+
+/-- an int32 arithmetic run is a piece when the cell behind it (if any; it may be an array header)
+    is not its continuation -/
+theorem PrinterPieces.irun_of_next {opt : POpt} (hopt : OptOK opt) (hc : opt.compress = true) (a d : Int) (n : Nat)
+    (xs : List ASeg) (h5 : 5 ≤ n) (hd : d ≠ 0)
+    (hr : ∀ k : Nat, k ≤ n → -2147483648 ≤ a + (k : Int) * d ∧ a + (k : Int) * d ≤ 2147483647)
+    (hw : ((n : Int) - 1) * d.natAbs ≤ 2147483647) (h32 : (d = 1 ∨ d = -1) → (n : Int) ≤ 2147483647)
+    (hnext : cellsAllA xs = [] ∨ eqSingle [Cell.int .i (a + (n : Int) * d)] (cellsAllA xs) = .ok false)
+    (hrest : PrinterPieces opt xs) : PrinterPieces opt (.seg (.irun a d n) :: xs) :=
+  .irun a d n xs h5 hd hr hw h32
+    (convertToRange_irun_of_nextW opt hc (runHyp_mk a d n h5 hd hr hw h32) (cellsAllA xs)
+      (wfCells_cellsAllA (hrest.asegmented hopt)) hnext) hrest
+
+/-- the tag of an array piece is the one the property's domain demands (`ItemInDomain`, cf.
+    `getLast?_map_val`): the type of the last element, 32 for an empty array -/
+theorem arrTag_eq {opt : POpt} (hopt : OptOK opt) {body : List RSeg} (hb : PrinterSegments opt body) :
+    lastTyS body 32 = lastTy (cellsAll body) 32 :=
+  lastTyS_eq_lastTy (hb.segmented hopt) 32
+
+instance (body : List RSeg) : Decidable (ArrTypesOK body) :=
+  inferInstanceAs (Decidable (∀ e ∈ cellsAll body, typesMatch ((cellsAll body).headD (Cell.flag .N)).type e.type = true))
+
+/-- **print_scan_roundtrip_arrays_partial** (tier 3, "arrays of them", "constant and arithmetic runs
+    … compression on", "compressed ranges being compared by their expansion"): the full statement
+    for every argument list whose arguments are scalar values of the property's domain, compressed
+    runs of them (constant runs of any scalar type, int32 arithmetic runs) AND arrays of scalar
+    values which may themselves contain compressed runs — in any number and order, values and
+    runs directly behind an array included (there the scanner has no left neighbour,
+    `args_before = 0`, and the checker sees an array, while the printer still looked at the
+    array's last element: the three views are proved to lead to the same reading).  `origItemsA xs`
+    is the original argument list (plain values and arrays of plain values), `itemsAllA none xs`
+    what the scanner returns (values, `nxA`, ranges, arrays of them); both expand to `valsA xs`.
+    Runs of n ≥ 5 equal arrays, printed as `nx[…]`, are pieces as well (`ASeg.arun`).
+    Not covered: nested arrays, arithmetic runs of 'h' / 'c' / booleans, midnight time tags. -/
+theorem print_scan_roundtrip_arrays_partial (opt : POpt) (hopt : OptOK opt) (hc : opt.compress = true)
+    (xs : List ASeg) (hp : PrinterPieces opt xs) : RoundTrips opt (origItemsA xs) := by
+  have hs := hp.asegmented hopt
+  obtain ⟨st, ret, h1, h2, h3, h4⟩ := runs_arrays_roundtrip_cells opt hc xs hs
+  refine ⟨st, ret, itemsAllA none xs, valsA xs, ?_, h2, ?_, ?_, expandList_itemsAllA hs none, expandList_origItemsA hs⟩
+  · rw [flatList_origItemsA]; exact h1
+  · rw [flatList_itemsAllA hs none]; exact h3
+  · rw [flatList_itemsAllA hs none]; exact h4
+
+/-- **message_roundtrip_arrays_partial** (tier 3, "the same holds for whole messages"): address plus
+    an argument list of values, compressed runs and arrays with compressed runs, as in
+    `print_scan_roundtrip_arrays_partial`. -/
+theorem message_roundtrip_arrays_partial (opt : POpt) (hopt : OptOK opt) (hc : opt.compress = true)
+    (addr : Bytes) (adrsize : Nat) (ha : AddrOK addr) (hal : addr.length < adrsize)
+    (xs : List ASeg) (hp : PrinterPieces opt xs) : MsgRoundTrips opt addr adrsize (origItemsA xs) := by
+  have hs := hp.asegmented hopt
+  obtain ⟨st, ret, h1, h2, h3, h4⟩ := runs_arrays_message_roundtrip_cells opt hc addr adrsize ha hal xs hs
+  refine ⟨st, ret, itemsAllA none xs, valsA xs, ?_, h2, ?_, ?_, expandList_itemsAllA hs none, expandList_origItemsA hs⟩
+  · rw [flatList_origItemsA]; exact h1
+  · rw [flatList_itemsAllA hs none]; exact h3
+  · rw [flatList_itemsAllA hs none]; exact h4
+
+theorem typesMatch_symm (a b : UInt8) (h : typesMatch a b = true) : typesMatch b a = true := by
+  simp only [typesMatch, Bool.or_eq_true, Bool.and_eq_true, decide_eq_true_eq] at *
+  rcases h with (h | h) | h <;> simp_all
+
+/-- the values of a segmented list are values of the property's domain -/
+theorem PrinterSegments.domain {opt : POpt} {segs : List RSeg} (h : PrinterSegments opt segs) :
+    ∀ c ∈ cellsAll segs, ScalarInDomain opt c := by
+  induction h with
+  | nil => simp [cellsAll]
+  | tok c segs hd _ _ _ ih =>
+    intro x hx
+    simp only [cellsAll, RSeg.cells, List.singleton_append, List.mem_cons] at hx
+    rcases hx with rfl | hx
+    · exact hd
+    · exact ih x hx
+  | crun n c segs hd _ _ _ _ _ ih =>
+    intro x hx
+    simp only [cellsAll, RSeg.cells, List.mem_append, List.mem_replicate] at hx
+    rcases hx with ⟨_, rfl⟩ | hx
+    · exact hd
+    · exact ih x hx
+  | irun a d n segs _ _ hr _ _ _ _ ih =>
+    intro x hx
+    simp only [cellsAll, RSeg.cells, List.mem_append, arithRun, List.mem_map, List.mem_range] at hx
+    rcases hx with ⟨k, hk, rfl⟩ | hx
+    · exact hr k (by omega)
+    · exact ih x hx
+
+/-- **the original argument list of a list of pieces is one of the property's domain**
+    (`ItemInDomain`: scalars of the domain, arrays of them with elements of one type, tagged with the
+    type of the last element), provided no array has more than 8 elements -/
+theorem PrinterPieces.inDomain {opt : POpt} (hopt : OptOK opt) {xs : List ASeg} (h : PrinterPieces opt xs)
+    (hlen : ∀ body, ASeg.arr body ∈ xs → (cellsAll body).length ≤ 8)
+    (hlenR : ∀ n body, ASeg.arun n body ∈ xs → (cellsAll body).length ≤ 8) :
+    ∀ x ∈ origItemsA xs, ItemInDomain opt x := by
+  induction h with
+  | nil => simp [origItemsA]
+  | tok c xs hd _ _ _ ih =>
+    intro x hx
+    simp only [origItemsA, ASeg.origItems, RSeg.cells, List.map_cons, List.map_nil, List.singleton_append,
+      List.mem_cons] at hx
+    rcases hx with rfl | hx
+    · exact hd
+    · exact ih (fun b hb => hlen b (by simp [hb])) (fun m b hb => hlenR m b (by simp [hb])) x hx
+  | crun n c xs hd _ _ _ _ _ ih =>
+    intro x hx
+    simp only [origItemsA, ASeg.origItems, RSeg.cells, List.mem_append, List.mem_map, List.mem_replicate] at hx
+    rcases hx with ⟨y, ⟨_, rfl⟩, rfl⟩ | hx
+    · exact hd
+    · exact ih (fun b hb => hlen b (by simp [hb])) (fun m b hb => hlenR m b (by simp [hb])) x hx
+  | irun a d n xs _ _ hr _ _ _ _ ih =>
+    intro x hx
+    simp only [origItemsA, ASeg.origItems, RSeg.cells, List.mem_append, List.mem_map, arithRun, List.mem_range] at hx
+    rcases hx with ⟨y, ⟨k, hk, rfl⟩, rfl⟩ | hx
+    · exact hr k (by omega)
+    · exact ih (fun b hb => hlen b (by simp [hb])) (fun m b hb => hlenR m b (by simp [hb])) x hx
+  | arr body xs hb hty _ _ ih =>
+    intro x hx
+    simp only [origItemsA, ASeg.origItems, List.singleton_append, List.mem_cons] at hx
+    rcases hx with rfl | hx
+    · have hdom := hb.domain
+      have htag := arrTag_eq hopt hb
+      refine ⟨by simpa using hlen body (by simp), ?_, ?_⟩
+      · intro e he
+        obtain ⟨c, hc, rfl⟩ := List.mem_map.mp he
+        refine ⟨c, rfl, hdom c hc, ?_⟩
+        -- the tag is the type of the last cell, which matches the first like every cell
+        rw [htag]
+        obtain ⟨l, hl⟩ : ∃ l, (cellsAll body).getLast? = some l := by
+          cases hg : (cellsAll body).getLast? with
+          | none => rw [List.getLast?_eq_none_iff] at hg; rw [hg] at hc; cases hc
+          | some l => exact ⟨l, rfl⟩
+        have hlm : l ∈ cellsAll body := List.mem_of_getLast? hl
+        have e : lastTy (cellsAll body) 32 = l.type := by simp [lastTy, hl]
+        rw [e]
+        exact typesMatch_trans _ _ _ (typesMatch_symm _ _ (hty c hc)) (typesMatch_symm _ _ (hty l hlm))
+      · rw [getLast?_map_val]; exact htag
+    · exact ih (fun b hb => hlen b (by simp [hb])) (fun m b hb => hlenR m b (by simp [hb])) x hx
+  | arun n body xs hb hty _ _ _ _ ih =>
+    intro x hx
+    simp only [origItemsA, ASeg.origItems, List.mem_append, List.mem_replicate] at hx
+    rcases hx with ⟨_, rfl⟩ | hx
+    · have hdom := hb.domain
+      have htag := arrTag_eq hopt hb
+      refine ⟨by simpa using hlenR n body (by simp), ?_, ?_⟩
+      · intro e he
+        obtain ⟨c, hc, rfl⟩ := List.mem_map.mp he
+        refine ⟨c, rfl, hdom c hc, ?_⟩
+        rw [htag]
+        obtain ⟨l, hl⟩ : ∃ l, (cellsAll body).getLast? = some l := by
+          cases hg : (cellsAll body).getLast? with
+          | none => rw [List.getLast?_eq_none_iff] at hg; rw [hg] at hc; cases hc
+          | some l => exact ⟨l, rfl⟩
+        have hlm : l ∈ cellsAll body := List.mem_of_getLast? hl
+        have e : lastTy (cellsAll body) 32 = l.type := by simp [lastTy, hl]
+        rw [e]
+        exact typesMatch_trans _ _ _ (typesMatch_symm _ _ (hty c hc)) (typesMatch_symm _ _ (hty l hlm))
+      · rw [getLast?_map_val]; exact htag
+    · exact ih (fun b hb => hlen b (by simp [hb])) (fun m b hb => hlenR m b (by simp [hb])) x hx
+
+/-! ### Nested arrays: a limit of the MODEL (not of the code) -/
+
+/-- an array nested eight deep around the value 2, followed by the run 2 … 6 -/
+def deepItems : List Item :=
+  [.arr 97 [.arr 97 [.arr 97 [.arr 97 [.arr 97 [.arr 97 [.arr 97 [.arr 105 [.val (.int .i 2)]]]]]]]],
+   .val (.int .i 2), .val (.int .i 3), .val (.int .i 4), .val (.int .i 5), .val (.int .i 6)]
+
+/-- **nested_arrays_model_fuel_counterexample**: why nested arrays are not part of the proved class.
+    The printed text `[[[[[[[[2]]]]]]]] 2 ... 6` is correct, but the MODEL of the checker answers
+    `Err.fuel` on it: `ellipsisTail` (Pretty/Check.lean) re-skips the left neighbour of a range —
+    here the eight-deep array — with the recursion bound derived from the length of the range's own
+    text `2 ... 6`, which is too small for the nesting depth.  The bound is an artefact of the model
+    (the C function recurses without any bound); a statement about nested arrays followed by a range
+    needs the hypothesis `nesting depth + 3 ≤ length of the range text`, or a model whose
+    `ellipsisTail` takes the bound from the length of `llhssrc`. -/
+theorem nested_arrays_model_fuel_counterexample : ¬ RoundTrips defaultOpt deepItems := by
+  rintro ⟨st, ret, items', vs, h1, _, h3, _⟩
+  have hp : printArgVals defaultOpt (flatList deepItems) ⟨[], 0⟩ =
+      .ok (⟨lit "[[[[[[[[2]]]]]]]] 2 ... 6", 34⟩, 25) := by decide +kernel
+  rw [hp] at h1
+  cases h1
+  have hc : countPrintedArgVals (lit "[[[[[[[[2]]]]]]]] 2 ... 6") = .error .fuel := by decide +kernel
+  rw [hc] at h3
+  cases h3
+
+/-- one level less and the model follows the code: 13 cells -/
+example : countPrintedArgVals (lit "[[[[[[[2]]]]]]] 2 ... 6") = .ok 11 := by decide +kernel
 
 /-! ### The constants and tables extracted from the source (Generated/PrettyConst.lean) -/
 
@@ -953,6 +1409,106 @@ example : (printArgVals defaultOpt (cellsAll exRunSegs) ⟨[], 0⟩).map (fun r 
 example : scannedAll none exRunSegs =
     [.int .i 1, .rep 6 1, .int .i 1, .int .i 1, .rep 5 0, .str .s (some (lit "ab")), .int .i 3,
      .int .i 10, .rep 4 1, .int .i (-2), .int .i 8, .flag .T, .rep 7 1, .int .i (-1), .int .i (-4)] := by
+  decide +kernel
+
+/-- runs inside arrays, values and runs directly behind arrays: `0 [1 1 ... 6 5x3] 8 9 ... 12 [] -4 ... -10 [7] 7 ... 11 [5x"ab"]` -/
+def exPieces : List ASeg :=
+  [.seg (.tok (.int .i 0)),
+   .arr [.tok (.int .i 1), .irun 1 1 6, .crun 5 (.int .i 3)],
+   .seg (.irun 8 1 5),
+   .arr [],
+   .seg (.irun (-4) (-1) 7),
+   .arr [.tok (.int .i 7)],
+   .seg (.irun 7 1 5),
+   .arr [.crun 5 (.str .s (some (lit "ab")))]]
+
+example : PrinterPieces defaultOpt exPieces := by
+  have hopt : OptOK defaultOpt := by unfold OptOK defaultOpt; simp
+  have hint : ∀ v : Int, -2147483648 ≤ v → v ≤ 2147483647 → ScalarInDomain defaultOpt (.int .i v) := by
+    intro v h1 h2; exact ⟨h1, h2⟩
+  unfold exPieces
+  refine .tok _ _ (hint _ (by decide) (by decide)) (by simp [MidnightTime]) (by decide +kernel) ?_
+  refine .arr _ _ ?_ (by decide +kernel) (by decide +kernel) ?_
+  · refine .tok _ _ (hint _ (by decide) (by decide)) (by simp [MidnightTime]) (by decide +kernel) ?_
+    refine .irun _ _ _ _ (by decide) (by decide) (by intro k hk; omega) (by decide) (fun _ => by decide) (by decide +kernel) ?_
+    exact .crun _ _ _ (hint _ (by decide) (by decide)) (by simp [MidnightTime]) (by decide) (by decide) (by decide +kernel) .nil
+  refine .irun _ _ _ _ (by decide) (by decide) (by intro k hk; omega) (by decide) (fun _ => by decide) (by decide +kernel) ?_
+  refine .arr _ _ .nil (by decide +kernel) (by decide +kernel) ?_
+  refine .irun _ _ _ _ (by decide) (by decide) (by intro k hk; omega) (by decide) (fun _ => by decide) (by decide +kernel) ?_
+  refine .arr _ _ ?_ (by decide +kernel) (by decide +kernel) ?_
+  · exact .tok _ _ (hint _ (by decide) (by decide)) (by simp [MidnightTime]) (by decide +kernel) .nil
+  refine .irun _ _ _ _ (by decide) (by decide) (by intro k hk; omega) (by decide) (fun _ => by decide) (by decide +kernel) ?_
+  -- the last array: the side condition for its header from `arr_of_next`
+  refine .arr_of_next _ _ ?_ (by decide +kernel) (Or.inl rfl) .nil
+  exact .crun _ _ _ (by show ∀ b ∈ lit "ab", StrByteOK b; decide +kernel) (by simp [MidnightTime]) (by decide) (by decide)
+    (by decide +kernel) .nil
+
+example : (printArgVals defaultOpt (cellsAllA exPieces) ⟨[], 0⟩).map (fun r => (r.1.out, r.2)) =
+    .ok (lit "0 [1 1 ... 6 5x3] 8 9 ... 12 [] -4 ... -10 [7] 7 ... 11 [5x\"ab\"]", 64) := by
+  decide +kernel
+
+/-- what the scanner returns: behind `[… 5x3]` the run `8 … 12` is read as the value 8 and the range
+    `9 ... 12` (the printer saw the 3 in front and wrote the second number), behind `[]` and `[7]` the
+    short forms are read with the delta ∓1 of a range without left neighbour -/
+example : scannedAllA none exPieces =
+    [.int .i 0, .arr 105 6, .int .i 1, .rep 6 1, .int .i 1, .int .i 1, .rep 5 0, .int .i 3,
+     .int .i 8, .rep 4 1, .int .i 1, .int .i 9, .arr 32 0, .rep 7 1, .int .i (-1), .int .i (-4),
+     .arr 105 1, .int .i 7, .rep 5 1, .int .i 1, .int .i 7, .arr 115 2, .rep 5 0, .str .s (some (lit "ab"))] := by
+  decide +kernel
+
+example : scanArgVals (lit "0 [1 1 ... 6 5x3] 8 9 ... 12 [] -4 ... -10 [7] 7 ... 11 [5x\"ab\"]") 24 =
+    .ok (64, scannedAllA none exPieces) := by
+  decide +kernel
+
+example : countPrintedArgVals (lit "0 [1 1 ... 6 5x3] 8 9 ... 12 [] -4 ... -10 [7] 7 ... 11 [5x\"ab\"]") = .ok 24 := by
+  decide +kernel
+
+/-- the run conditions stated on the values, with arrays behind the runs: `7 7 7 7 7 [1 2] 8 9 10 11 12 []` -/
+example : PrinterPieces defaultOpt
+    [.seg (.crun 5 (.int .i 7)), .arr [.tok (.int .i 1), .tok (.int .i 2)], .seg (.irun 8 1 5), .arr []] := by
+  have hopt : OptOK defaultOpt := by unfold OptOK defaultOpt; simp
+  have hint : ∀ v : Int, -2147483648 ≤ v → v ≤ 2147483647 → ScalarInDomain defaultOpt (.int .i v) := by
+    intro v h1 h2; exact ⟨h1, h2⟩
+  refine .crun_of_next hopt rfl _ _ _ (hint _ (by decide) (by decide)) (by simp [MidnightTime]) (by decide) (by decide)
+    (Or.inr (fun more => ?_)) ?_
+  · have e : cellsAllA [.arr [.tok (.int .i 1), .tok (.int .i 2)], .seg (.irun 8 1 5), .arr []] =
+        Cell.arr 105 2 :: [.int .i 1, .int .i 2, .int .i 8, .int .i 9, .int .i 10, .int .i 11, .int .i 12, .arr 32 0] := by
+      decide +kernel
+    rw [e]
+    simp [rangeArgsIdentical, eqSingle, ArgVal.eqSingle, ArgVal.deref, ArgVal.Cell.asArr, ArgVal.eqScalar, liftAV, bind,
+      ArgVal.Cell.type, ArgVal.IntTy.char, ArgVal.tyA,
+      Except.bind, pure, Except.pure]
+  refine .arr_of_next _ _ ?_ (by decide +kernel) (Or.inr ⟨_, _, rfl⟩) ?_
+  · exact .tok _ _ (hint _ (by decide) (by decide)) (by simp [MidnightTime]) (by decide +kernel)
+      (.tok _ _ (hint _ (by decide) (by decide)) (by simp [MidnightTime]) (by decide +kernel) .nil)
+  refine .irun_of_next hopt rfl _ _ _ _ (by decide) (by decide) (by intro k hk; omega) (by decide) (fun _ => by decide)
+    (Or.inr (by decide +kernel)) ?_
+  exact .arr_of_next _ _ .nil (by decide +kernel) (Or.inl rfl) .nil
+
+/-- runs of equal arrays, a run directly behind one, a compressed run inside the repeated array:
+    `0 5x[1 2] 2 ... 6 6x[5x3]` (57 cells are printed, 12 are scanned) -/
+def exArrRuns : List ASeg :=
+  [.seg (.tok (.int .i 0)), .arun 5 [.tok (.int .i 1), .tok (.int .i 2)], .seg (.irun 2 1 5), .arun 6 [.crun 5 (.int .i 3)]]
+
+example : PrinterPieces defaultOpt exArrRuns := by
+  have hint : ∀ v : Int, -2147483648 ≤ v → v ≤ 2147483647 → ScalarInDomain defaultOpt (.int .i v) := by
+    intro v h1 h2; exact ⟨h1, h2⟩
+  unfold exArrRuns
+  refine .tok _ _ (hint _ (by decide) (by decide)) (by simp [MidnightTime]) (by decide +kernel) ?_
+  refine .arun _ _ _ ?_ (by decide +kernel) (by decide) (by decide) (by decide +kernel) ?_
+  · exact .tok _ _ (hint _ (by decide) (by decide)) (by simp [MidnightTime]) (by decide +kernel)
+      (.tok _ _ (hint _ (by decide) (by decide)) (by simp [MidnightTime]) (by decide +kernel) .nil)
+  refine .irun _ _ _ _ (by decide) (by decide) (by intro k hk; omega) (by decide) (fun _ => by decide) (by decide +kernel) ?_
+  refine .arun _ _ _ ?_ (by decide +kernel) (by decide) (by decide) (by decide +kernel) .nil
+  exact .crun _ _ _ (hint _ (by decide) (by decide)) (by simp [MidnightTime]) (by decide) (by decide) (by decide +kernel) .nil
+
+example : (printArgVals defaultOpt (cellsAllA exArrRuns) ⟨[], 0⟩).map (fun r => (r.1.out, r.2)) =
+    .ok (lit "0 5x[1 2] 2 ... 6 6x[5x3]", 25) := by
+  decide +kernel
+
+example : scannedAllA none exArrRuns =
+    [.int .i 0, .rep 5 0, .arr 105 2, .int .i 1, .int .i 2, .rep 5 1, .int .i 1, .int .i 2,
+     .rep 6 0, .arr 105 2, .rep 5 0, .int .i 3] := by
   decide +kernel
 
 /-- an address with characters outside the usual path alphabet is an address of the domain -/
